@@ -42,5 +42,12 @@ PROP = dict(
         "store iteration order is not modelled: pools, token pairs and CSRs are compared as sets",
         "fewer than 2^64-1 pools (no uint64 wrap-around of the pool sequence)",
         "genesis block time is not the zero time (then no stored epoch StartTime is the zero-time sentinel)",
+        "history theorem C18_history: the only facts assumed about a history (hist_ok / op_ok) are external ones - "
+        "(1) the address the EVM gives to a contract deployed by RegisterCoin is not the address of a registered pair "
+        "(TokenPairsProofs.fresh_ok), (2) block heights are not negative; that NFT ids appear only through Register events "
+        "of the Turnstile is derived from Model/Csr.v (C18_csr_ids_from_register_events), pool sequence, parameter validity "
+        "and the registry invariants are derived from the Coinswap, Authority, TokenPairs and Csr models",
+        "stored token pairs carry well-formed denomination / address strings (RegisterCoin / RegisterERC20 validate them); "
+        "checked on every case by the ValidateGenesis monitor",
     ],
 )
